@@ -13,8 +13,21 @@ mark closes the latest still-open opening of that label, whatever its sign), a h
 line being an addition opened on the first line and closed on the last one.
 -/
 import Paroxy.Proofs.HintsCore2
+import Paroxy.Proofs.HintsSame
 import Paroxy.Proofs.HintsMalformed
 import Paroxy.Proofs.GlueCount
+/-
+Character classes. The classes `\w` and white space are fixed on ASCII and on `…`; for every other
+character they are the oracle parameter `O : CharOracle`, universally quantified in every theorem
+below (treatment R1): labels such as `été`, `λ`, `变量`, separators such as NBSP or U+2028 are covered,
+whatever the real engines answer for them. The concrete `example`s use `asciiOracle` or say which
+oracle they use.
+
+Limit (outside the property): `ProgramParser.__call__` consumes `program.deletion` IN PLACE
+(`list.remove`); parsing the same `Program` object a second time finds the deletions already
+consumed and deletes nothing. The model returns the schedule left over (`(parse …).2`); the
+theorems are about one call on a fresh `get_program` result.
+-/
 namespace Paroxy.Props.C12
 open Paroxy Paroxy.Hints Paroxy.Glue
 
@@ -87,6 +100,51 @@ theorem C12_marker_tolerance (d : List (Line × MarkerStyle))
   have h2 := prepare_decorateS (d.map fun p => (p.1, ({} : MarkerStyle)))
     (by simpa [List.map_map, Function.comp_def] using linesOk_of _ hlines) (by rw [e]; exact hne')
   rw [getProgram, getProgram, h1, h2, e]
+
+/-- **C12 (stored source).** The stored source of a decorated program is the stored source of the
+same program written without any hint (and `get_program` schedules nothing for the latter): "the
+stored source text [is that] of the program without the hint". No nesting hypothesis is needed. -/
+theorem C12_source_same (d : List (Line × MarkerStyle))
+    (hlines : (linesOk O) (d.map Prod.fst) = true)
+    (hcode : (codeLines (normalised d)).isEmpty = false)
+    (p : Program) (hp : (getProgram O) (decorateS d) = .ok p) :
+    (getProgram O) (joinNL (base (normalised d))) = .ok ⟨p.source, [], []⟩ := by
+  have hok := linesOk_of _ hlines
+  obtain ⟨okt, hwt⟩ := trimmed_ok d hok
+  have hne2 : codeLines (core2 (trimmed d)) ≠ [] := by simpa [normalised] using hcode
+  have hsub2 := core2_sublist (trimmed d)
+  have hne1 : codeLines (trimmed d) ≠ [] := by
+    intro e
+    apply hne2
+    cases hc : codeLines (core2 (trimmed d)) with
+    | nil => rfl
+    | cons c t =>
+      have : c ∈ codeLines (trimmed d) :=
+        (mem_codeLines_iff _ c).mpr (hsub2.subset ((mem_codeLines_iff _ c).mp (by rw [hc]; simp)))
+      rw [e] at this; cases this
+  have hy : (Hyg O) (normalised d) := hyg_core2 (trimmed d) okt hwt hne2
+  -- the stored source of the decorated text
+  have hprep := prepare_decorateS d hok hne1
+  have hp' : (getProgramFrom O) (decorate (normalised d)) = .ok p := by
+    rw [getProgram, hprep] at hp
+    unfold getProgramFrom at hp ⊢
+    rw [centrifugate_core2 (trimmed d) okt hwt hne2] at hp
+    exact hp
+  have hsrc := source_of_decorate (normalised d) hy p hp'
+  -- no look-alike of the marker in the code lines that are left
+  have hloose : ∀ c ∈ codeLines (normalised d), (noLoose O) c.code = true := by
+    intro c hc
+    have h1 : Line.code c ∈ trimmed d := hsub2.subset ((mem_codeLines_iff _ c).mp hc)
+    have h2 : Line.code c ∈ (d.map fun q => gap0 q.1) := (core_sublist _).subset h1
+    obtain ⟨q, hq, hg⟩ := List.mem_map.mp h2
+    cases hl : q.1 with
+    | isolated n L => rw [hl] at hg; simp [gap0] at hg
+    | code c0 =>
+      rw [hl] at hg
+      simp only [gap0, Line.code.injEq] at hg
+      have := (hok.loose q.1 (List.mem_map_of_mem (f := Prod.fst) hq)).code c0 hl
+      rw [← hg]; exact this.1
+  rw [getProgram_undecorated (normalised d) hy hloose, hsrc]
 
 /-- The executable reading of `Bal` used by the driver (`c12.spec_*`) is sound: the spans it
 returns are spans of a proper nesting. -/
@@ -307,6 +365,15 @@ example : (getProgram asciiOracle) "x = 1\n# paroxython: -foo".toList = .error .
 example : (getProgram asciiOracle) "a # paroxython: foo... -foo...\nb # paroxython: ...foo".toList = .error .valueError := by rfl
 example : (getProgram asciiOracle) "# paroxython: foo".toList = .error .indexError := by rfl
 
+/-- Beyond ASCII the answer depends on the oracle, as it does on the engine: with an oracle for which
+`é` is a word character `été` is scheduled, with one for which it is not the token is rejected;
+NBSP separates two tokens exactly when the oracle calls it white space. -/
+example : (getProgram ⟨fun c => c == 'é', fun _ => false⟩) "x = 1 # paroxython: été".toList =
+    .ok ⟨"x = 1".toList, [("été".toList, [(1, 1)])], []⟩ := by rfl
+example : (getProgram asciiOracle) "x = 1 # paroxython: été".toList = .error .valueError := by rfl
+example : (getProgram ⟨fun _ => false, fun c => c == '\u00a0'⟩) "x = 1 # paroxython: a\u00a0b".toList =
+    .ok ⟨"x = 1".toList, [("a".toList, [(1, 1)]), ("b".toList, [(1, 1)])], []⟩ := by rfl
+
 /-! ## Scheduled deletions and additions in the parser -/
 
 /-- **C12 (deletion exact), regex stage.** For every list of computed occurrences (whatever the
@@ -338,6 +405,26 @@ theorem C12_sql_stage_exact (del : Sched) (hnd : (keys del).Nodup) (derived : Li
   simp only [sqlStage]
   rw [group_count, a, b]
   exact ⟨rfl, rfl, by rw [hk]; exact hnd⟩
+
+/-- **C12 (deletion exact), all the stages together.** Over the regex stage and every SQL stage
+(whatever SQLite derived at each of them): the labels returned hold, for every name and range, the
+occurrences computed at all the stages, minus one per scheduled deletion of exactly that name and
+range as far as there are occurrences — whichever stage they show up at —, plus the scheduled
+additions; what is left of the schedule is what found no occurrence at any stage. -/
+theorem C12_all_stages_exact (del add : Sched) (hnd : (keys del).Nodup) (computed : List Occ)
+    (derived : List (List Occ)) (n : Str) (x : Nat × Nat) :
+    Labels.count (parse del add computed derived).1 n x =
+        ((occCount computed n x + derivedCount derived n x) - Sched.count del n x) + Sched.count add n x ∧
+      Sched.count (parse del add computed derived).2 n x =
+        Sched.count del n x - (occCount computed n x + derivedCount derived n x) := by
+  obtain ⟨hk, h⟩ := stage_count computed del hnd
+  have hnd' : (keys (regexStage del add computed).2).Nodup := by simp only [regexStage]; rw [hk]; exact hnd
+  obtain ⟨_, hf⟩ := stages_fold_count derived (regexStage del add computed).1 (regexStage del add computed).2 hnd'
+  obtain ⟨a, b⟩ := hf n x
+  obtain ⟨c1, c2⟩ := C12_deletion_exact del add hnd computed n x
+  simp only [parse]
+  rw [a, b, c1, c2]
+  omega
 
 /-- **C12 (other labels untouched).** A name no deletion hint mentions keeps every computed
 occurrence, paths included, in the computed order; and the loop never invents an occurrence. -/
